@@ -35,14 +35,14 @@ def fuzz_part(name, pkg, run, fuzztime=90):
 CHECKS = {
     "C12": dict(
         technique="property-based testing (rapid) of round-trip over a recursive type/value generator + native coverage-guided fuzzing of the same property",
-        level_text="Generated-input search: tens of thousands (quick) to millions (thorough) of (type, value) pairs over the recursive universe of registered types are round-tripped through Marshal/Unmarshal and compared with a type-exact deep-equality oracle; failures shrink to a minimal (type, value) replay. Held on everything explored; no claim of absence. A graph part checks the last clause at graph level: generated interrupt/resume histories in which every resume happens on a freshly compiled runnable, so that only the bytes in the checkpoint store connect the calls, must equal the uninterrupted run (output, executions, state).",
+        level_text="Generated-input search: tens of thousands (quick) to millions (thorough) of (type, value) pairs over the recursive universe of registered types are round-tripped through Marshal/Unmarshal and compared with a type-exact deep-equality oracle; failures shrink to a minimal (type, value) replay. Held on everything explored; no claim of absence. A graph part checks the last clause at graph level: generated interrupt/resume histories in which every resume happens on a freshly compiled runnable, so that only the bytes in the checkpoint store connect the calls, must equal the uninterrupted run (output, executions, state). A pending-stream part runs Stream histories over transform pipelines whose nodes may emit no chunk at all: an empty pending stream must come back empty, a non-empty one as its concatenation.",
         level_note="Trusts the harness' value builder and deep-equality; white-box entry points internal/serialization.Marshal/Unmarshal (overlay test in package serialization). One open known finding (pointer to nil pointer) is excluded position-wise from the comparison.",
         design_ref="DESIGN.md section 4 C12",
         rule="rapid draws a type from the recursive universe (all integer widths, floats, bool, valid UTF-8 strings, named basics, 6 registered "
              "structs incl. recursive list and interface fields, pointers depth 0-3 with nil at each level, slices/maps via reflect over (pointers to) "
              "registered element types, map keys of 12 registered comparable types, any/VNamer positions holding any such value) and a value of it; "
              "a case is non-trivial when its value tree has depth >= 3 and contains a pointer, a container and an interface position holding a "
-             "struct/container/pointer; distinct = FNV-1a of the canonical case JSON ; graph part: non-trivial = the history has >= 2 interrupts",
+             "struct/container/pointer; distinct = FNV-1a of the canonical case JSON ; graph part: non-trivial = the history has >= 2 interrupts ; pending part: non-trivial = a stream without chunks is pending at an interrupt point",
         assumptions=["reflect.DeepEqual-style comparison with nil==empty containers is the equality the statement means",
                      "outside the stated universe (NaN/Inf, complex, unregistered types) only 'no different value without an error' is asserted"],
         parts=[
@@ -59,9 +59,9 @@ GRAPH_ASSUME = ["node bodies are deterministic functions of their input (harness
 
 CHECKS["C01"] = dict(
     technique="property-based testing (rapid): generated Pregel graphs and chains vs an independent superstep reference interpreter (model-based oracle)",
-    level_text="Generated-input search over graph shapes (fan-out, fan-in by key, single/multi branches incl. empty selection, back edges, pass-through, nested graphs of pregel/dag/chain kind, step limits at compile and call time, chains with parallel/branch stages) and inputs; each run is compared with a reference interpreter written from the statement: same output or same failure class (max steps / nothing to run / merge failure / missing input key), same multiset and per-node sequence of node executions. Non-termination is converted into a counted failure by a per-node execution cap. Held on everything explored. A share of the cases compiles the graph object twice (first with another step limit, dropped) and judges the second runnable.",
+    level_text="Generated-input search over graph shapes (fan-out, fan-in by key, single/multi branches incl. empty selection, back edges, pass-through, nested graphs of pregel/dag/chain kind, step limits at compile and call time, chains with parallel/branch stages) and inputs; each run is compared with a reference interpreter written from the statement: same output or same failure class (max steps / nothing to run / merge failure / missing input key), same multiset and per-node sequence of node executions. Non-termination is converted into a counted failure by a per-node execution cap. Held on everything explored. A share of the cases compiles the graph object twice (first with another step limit, dropped) and judges the second runnable. A resume part runs generated interrupt/resume histories over any-predecessor graphs (Invoke calls) against the history oracle: a value sent before an interrupt is received in the step after the resume.",
     level_note="Trusts the harness builder (spec -> public Add*/Append* API) and the reference model gkit.Ref; node timing is irrelevant here (bodies are instantaneous, C03 owns schedules).",
-    rule="rapid draws a GraphSpec by construction (typed nodes S/M, every node has a primary predecessor, extra fan-in/back edges/branches/joins) plus an input and a calling form; non-trivial = the model predicts >= 3 lambda executions and at least one of: two values merged in one step, a node executed >= 2 times (cycle), a branch deciding differently at two evaluations, a graph node executed, a chain with a parallel or branch stage; distinct = FNV-1a of the case JSON",
+    rule="rapid draws a GraphSpec by construction (typed nodes S/M, every node has a primary predecessor, extra fan-in/back edges/branches/joins) plus an input and a calling form; non-trivial = the model predicts >= 3 lambda executions and at least one of: two values merged in one step, a node executed >= 2 times (cycle), a branch deciding differently at two evaluations, a graph node executed, a chain with a parallel or branch stage; distinct = FNV-1a of the case JSON ; resume part: non-trivial = the history has >= 1 interrupt",
     assumptions=GRAPH_ASSUME,
     parts=[rapid_part("rapid", "compose", "TestC01", 6000, 480000, qshards=4, replay_test="TestC01Replay"),
            rapid_part("resume", "compose", "TestC01Resume", 1000, 64000, qshards=4, replay_test="TestC01ResumeReplay", replay_reps=10)],
@@ -69,9 +69,9 @@ CHECKS["C01"] = dict(
 
 CHECKS["C02"] = dict(
     technique="property-based testing (rapid): generated all-predecessor graphs and Workflows vs a reference DAG evaluator, with enumeration of all top-level branch outcome vectors; exhaustive small-scope enumeration of report sequences on one dagChannel (white-box)",
-    level_text="Generated-input search over acyclic shapes in AllPredecessor graph mode and Workflow mode (control-only, data-only and combined dependencies, field mappings to map keys, single/multi branches incl. empty selection, converging branches, nested skips, nested graphs). Each run is compared with a reference evaluator written from the statement: which nodes ran (each at most once, with which input), the output, or the failure when END is skipped. For specs with <= 3 top-level branches every combination of branch outcomes is forced on the same compiled object. A white-box sub-check drives one dagChannel with every report sequence for up to 3 control x 2 data predecessors and compares readiness/skip/value set with a small reference. A directed generator adds joins reached by plain edges and through (forced) branches of several producers of one step.",
+    level_text="Generated-input search over acyclic shapes in AllPredecessor graph mode and Workflow mode (control-only, data-only and combined dependencies, field mappings to map keys, single/multi branches incl. empty selection, converging branches, nested skips, nested graphs). Each run is compared with a reference evaluator written from the statement: which nodes ran (each at most once, with which input), the output, or the failure when END is skipped. For specs with <= 3 top-level branches every combination of branch outcomes is forced on the same compiled object. A white-box sub-check drives one dagChannel with every report sequence for up to 3 control x 2 data predecessors and compares readiness/skip/value set with a small reference. A directed generator adds joins reached by plain edges and through (forced) branches of several producers of one step. A resume part does the same for all-predecessor graphs and workflows: skips and finished predecessors survive interrupt and resume.",
     level_note="Nodes that do not lead to END may or may not have started when the run returns; their executions are accepted either way (the statement does not fix it). Merge failures whose visibility depends on step timing are skipped and counted (label ambiguous-skipped).",
-    rule="rapid draws an acyclic GraphSpec (dag or workflow mode) by construction plus input and calling form; non-trivial = at least one node skipped and either a node with both finished and skipped control predecessors or a workflow with a control-only/data-only dependency; distinct = FNV-1a of case JSON; outcome vectors run are counted in extra.outcome_vectors_run",
+    rule="rapid draws an acyclic GraphSpec (dag or workflow mode) by construction plus input and calling form; non-trivial = at least one node skipped and either a node with both finished and skipped control predecessors or a workflow with a control-only/data-only dependency; distinct = FNV-1a of case JSON; outcome vectors run are counted in extra.outcome_vectors_run ; resume part: non-trivial = the history has >= 1 interrupt",
     assumptions=GRAPH_ASSUME,
     exhaustive_part="TestC02ChannelEnum enumerates all report sequences for one dagChannel with <=3 control and <=2 data predecessors",
     parts=[rapid_part("rapid", "compose", "TestC02", 5000, 250000, qshards=4, replay_test="TestC02Replay"),
@@ -82,7 +82,7 @@ CHECKS["C02"] = dict(
 
 CHECKS["C04"] = dict(
     technique="property-based testing (rapid): 4-way differential between Invoke/Stream/Collect/Transform of one compiled object plus a reference model; generated native-paradigm subsets, chunk plans, stream branches, state handlers, field mappings, injected failures",
-    level_text="Generated-input search over graphs of all four kinds (pregel, all-predecessor, workflow, chain) whose lambdas natively implement a generated non-empty subset of the four paradigms (all 15 subsets) with generated chunk plans incl. empty chunks; value and stream state handlers, stream branch conditions, input/output keys, workflow field mappings to map keys, nested graphs. The same compiled object is called through all four paradigms (inputs given whole or in a generated chunking); results (streams concatenated by an independent concatenation) must equal each other and the reference model, and an injected failure (error at call or error item mid-stream) must be reported by every paradigm. Held on everything explored. A typed part covers chunk types that are not joined like strings: pipelines over int, bool and maps with int / bool / float / string / nested-map leaves, every node with a generated subset of native paradigms and a generated chunking (earlier values, zeros among them, before the value); the expected result is the fold of the node functions, the reference concatenation is written from the documented rules.",
+    level_text="Generated-input search over graphs of all four kinds (pregel, all-predecessor, workflow, chain) whose lambdas natively implement a generated non-empty subset of the four paradigms (all 15 subsets) with generated chunk plans incl. empty chunks; value and stream state handlers, stream branch conditions, input/output keys, workflow field mappings to map keys, nested graphs. The same compiled object is called through all four paradigms (inputs given whole or in a generated chunking); results (streams concatenated by an independent concatenation) must equal each other and the reference model, and an injected failure (error at call or error item mid-stream) must be reported by every paradigm. Held on everything explored. A typed part covers chunk types that are not joined like strings: pipelines over int, bool and maps with int / bool / float / string / nested-map leaves, every node with a generated subset of native paradigms and a generated chunking (earlier values, zeros among them, before the value); the expected result is the fold of the node functions, the reference concatenation is written from the documented rules. Injected stream failures may additionally wrap io.EOF.",
     level_note="Duplicate-key fan-ins (merge failure for values, silently concatenated for streams) are not generated and skipped if they arise: the statement does not fix them. any-typed node inputs are not generated (the framework has no concatenation for interface-typed chunks).",
     rule="rapid draws a GraphSpec with paradigm subsets/chunk plans/state/stream branches, an input, an input chunking and optionally a fault; non-trivial = >= 2 distinct native paradigm subsets among lambdas, a natively streaming producer with >= 2 chunks, >= 2 predicted executions and one of: fan-out, fan-in, stream branch, key wrapping, field mapping, state handler; distinct = FNV-1a of case JSON ; typed part: non-trivial = the framework itself has to concatenate a multi-chunk stream (a streaming node with >= 2 chunks followed by a node without Collect/Transform, or a node without Invoke/Collect)",
     assumptions=GRAPH_ASSUME,
@@ -96,7 +96,7 @@ HIST_RULE = ("rapid draws a GraphSpec (pregel / all-predecessor / workflow, nest
 
 CHECKS["C05"] = dict(
     technique="property-based testing (rapid) over interrupt/resume histories; metamorphic oracle: interrupted+resumed history == uninterrupted run (output, executions, state)",
-    level_text="Generated histories: every interrupting call is followed by a resume (Invoke or Stream, same or freshly compiled runnable, byte-only checkpoint store) until the run completes. Oracle: final output equals that of the same graph compiled without interrupt configuration; the multiset (and in Pregel/invoke histories the per-node sequence) of (node, input) executions over all calls, minus aborted rerun attempts, equals the uninterrupted one; state counters equal. Failures shrink to a minimal graph + interrupt set + call list.",
+    level_text="Generated histories: every interrupting call is followed by a resume (Invoke or Stream, same or freshly compiled runnable, byte-only checkpoint store) until the run completes. Oracle: final output equals that of the same graph compiled without interrupt configuration; the multiset (and in Pregel/invoke histories the per-node sequence) of (node, input) executions over all calls, minus aborted rerun attempts, equals the uninterrupted one; state counters equal. Failures shrink to a minimal graph + interrupt set + call list. Nested graphs are also run from inside a lambda node (compiled on their own, the lambda wraps their error with %w).",
     level_note="Only graphs whose uninterrupted run completes are asserted (others are counted and skipped). Nodes not leading to END in all-predecessor graphs are ignored in the comparison. The step budget is per call, as in the code.",
     rule=HIST_RULE + "non-trivial = >= 2 interrupts and one of: interrupt inside a nested graph, a rerun node, mixed paradigms across calls, a loop through an interrupt point or nested graph, fan-in with values parked in a channel; distinct = FNV-1a of case JSON",
     assumptions=GRAPH_ASSUME,
@@ -105,7 +105,7 @@ CHECKS["C05"] = dict(
 
 CHECKS["C06"] = dict(
     technique="property-based testing (rapid) over interrupt/resume histories; oracle: invariants over the recorded history (licence-to-run, stop-after, info completeness, checkpoint written iff interrupt)",
-    level_text="The same generated histories as C05, judged by history invariants: an interrupt-before node never starts more often than earlier interrupts reported it (also as first node after START, behind branches, nested, in eager mode); when an interrupt-after node completes in an interrupted call the info lists it at the right nesting level and nothing consuming its output starts later in that call; every interrupt error yields InterruptInfo (state present for stateful graphs, rerun nodes listed); the store receives exactly one Set in a call that returns an interrupt with an id and none otherwise (also without id). A call that stops before the run is complete although no node fails, and returns an error that is not an interrupt, is reported (the interrupt was replaced by an error).",
+    level_text="The same generated histories as C05, judged by history invariants: an interrupt-before node never starts more often than earlier interrupts reported it (also as first node after START, behind branches, nested, in eager mode); when an interrupt-after node completes in an interrupted call the info lists it at the right nesting level and nothing consuming its output starts later in that call; every interrupt error yields InterruptInfo (state present for stateful graphs, rerun nodes listed); the store receives exactly one Set in a call that returns an interrupt with an id and none otherwise (also without id). A call that stops before the run is complete although no node fails, and returns an error that is not an interrupt, is reported (the interrupt was replaced by an error). Nested graphs are also run from inside a lambda node (compiled on their own, the lambda wraps their error with %w): their interrupts must still be reported as nested-graph interrupts.",
     level_note="Observation is through instrumented lambda bodies (start/end events with inputs/outputs); pass-through and graph nodes configured as interrupt points are exercised but only judged through the lambdas around them.",
     rule=HIST_RULE + "non-trivial = >= 1 interrupt with an honoured before/after point and one of: before-node directly after START, nested interrupt, workflow (eager) mode, graph with branches; distinct = FNV-1a of case JSON",
     assumptions=GRAPH_ASSUME,
@@ -114,7 +114,7 @@ CHECKS["C06"] = dict(
 
 CHECKS["C13"] = dict(
     technique="property-based testing (rapid) with fault injection: generated graphs x fault plans x paradigms; oracle = reference model says which injected failure executes + errors.Is/As/text/sentinel/cancellation contract + process survival",
-    level_text="Generated-input search with injected faults: 1-3 lambdas (any nesting level, also several in one step) return a wrapped custom error, panic, deliver an error item or a panic on their output stream, or cancel the context; all four paradigms. When the reference model says an injected failure executes, the call must fail, errors.Is/As must recover the injected error of one of the failing nodes, the text must name its node path outer->inner->key, panics must be reported as errors; the step-limit sentinel and context.Canceled must be matchable with errors.Is. A panic that kills the test process is reported as a violation through the current-case file. A second part works on package schema directly: merges of 2-4 sources some of which are converted readers / copy children whose convert function panics at a generated item index (0-13, i.e. with the forwarding buffer empty, partly filled or full) with a lagging reader; per panicking source exactly the items before the panic, then one error item mentioning the panic, must arrive, then EOF. A step-limit failure inside a nested graph must name exactly the path of that graph node. Tool calls: a ToolsNode with one panicking tool (called, but not first; its gate opened last so that the node is already waiting for its goroutines) must return an error, under -race. Stream-forwarding goroutines: a schema-level sub-check merges copied/converted sources of which some panic inside their forwarding goroutine and requires the panic as an error item on the merged stream. A quarter of the injected failures additionally wrap io.EOF (a failure all the same).",
+    level_text="Generated-input search with injected faults: 1-3 lambdas (any nesting level, also several in one step) return a wrapped custom error, panic, deliver an error item or a panic on their output stream, or cancel the context; all four paradigms. When the reference model says an injected failure executes, the call must fail, errors.Is/As must recover the injected error of one of the failing nodes, the text must name its node path outer->inner->key, panics must be reported as errors; the step-limit sentinel and context.Canceled must be matchable with errors.Is. A panic that kills the test process is reported as a violation through the current-case file. A second part works on package schema directly: merges of 2-4 sources some of which are converted readers / copy children whose convert function panics at a generated item index (0-13, i.e. with the forwarding buffer empty, partly filled or full) with a lagging reader; per panicking source exactly the items before the panic, then one error item mentioning the panic, must arrive, then EOF. A step-limit failure inside a nested graph must name exactly the path of that graph node. Tool calls: a ToolsNode with one panicking tool (called, but not first; its gate opened last so that the node is already waiting for its goroutines) must return an error, under -race. Stream-forwarding goroutines: a schema-level sub-check merges copied/converted sources of which some panic inside their forwarding goroutine and requires the panic as an error item on the merged stream. A quarter of the injected failures additionally wrap io.EOF (a failure all the same). A third of the calls carry a logging error callback that formats every error it is shown, at every nesting level.",
     level_note="For failures that travel on a stream in stream-mode paradigms only survival/return is asserted here (whether such a stream is read is decided by C04's influence analysis). Node path naming is not asserted below chain levels (chain node keys are generated by the framework).",
     rule="rapid draws a GraphSpec (all modes, nested, paradigm subsets) and a fault plan; non-trivial = the model executes an injected failure and (it sits at nesting depth >= 1, or >= 2 failing nodes execute in the failing step, or the failure travels on a stream); distinct = FNV-1a of case JSON",
     assumptions=GRAPH_ASSUME,
@@ -125,7 +125,7 @@ CHECKS["C13"] = dict(
 
 CHECKS["C08"] = dict(
     technique="model-based property testing (rapid) of stream operation histories: generated reader forests (Pipe/array, Copy, Merge, Convert) x send/recv/close histories, online reference model per (reader, source); sequential and concurrent execution under the race detector",
-    level_text="Generated histories over generated reader forests: pipes of capacity 0-4 and array sources; Copy(2-4), MergeStreamReaders of 2-7 readers (static select and reflect.Select), StreamReaderWithConvert (map / drop via ErrNoValue / fail) nested to any depth, also derived in the middle of a history; sends of values and error items, closeSend, recv, close of any leaf. Every received item is checked online against a model that tracks, per (reader, source), the last sequence number seen: no loss, no duplication, no reordering, right value through the converts on the path, EOF only after every source below ended, copy siblings agree item by item, a writer is told 'closed' only after (and soon after) every derived reader was closed, nothing panics, nothing stays blocked once every reader is closed. One quarter of the cases run with one goroutine per reader/writer and generated yields; the whole check runs under -race.",
+    level_text="Generated histories over generated reader forests: pipes of capacity 0-4 and array sources; Copy(2-4), MergeStreamReaders of 2-7 readers (static select and reflect.Select), StreamReaderWithConvert (map / drop via ErrNoValue / fail) nested to any depth, also derived in the middle of a history; sends of values and error items, closeSend, recv, close of any leaf. Every received item is checked online against a model that tracks, per (reader, source), the last sequence number seen: no loss, no duplication, no reordering, right value through the converts on the path, EOF only after every source below ended, copy siblings agree item by item, a writer is told 'closed' only after (and soon after) every derived reader was closed, nothing panics, nothing stays blocked once every reader is closed. One quarter of the cases run with one goroutine per reader/writer and generated yields; the whole check runs under -race. Convert functions also return the no-value mark wrapped in another error.",
     level_note="The Go scheduler is not owned: interleavings inside peek/close are sampled through yields, not enumerated. Closing one reader twice and merging two readers that share a source are outside the contract / the oracle and are not generated. 'Blocked forever' is decided after a 20 s grace period with all readers closed (state dump attached).",
     rule="rapid draws sources, derivations and a history (3-40 ops); non-trivial = the forest contains a copy and a merge or convert, >= 3 receives happened, and one of: a copy closed before a sibling finished, a merge of >= 6 sources, a send after all readers closed, a derivation in mid-history; distinct = FNV-1a of case JSON",
     assumptions=["single owner per reader (no concurrent Recv/Close on one reader)", "values are ints tagged with source and sequence number"],
@@ -134,9 +134,9 @@ CHECKS["C08"] = dict(
 
 CHECKS["C14"] = dict(
     technique="property-based testing (rapid) + native fuzzing of algebraic laws of chunk concatenation: totality, determinism, input immutability, re-chunking (prefix-then-rest == all-at-once), plus a small reference for text / tool-call merge",
-    level_text="Generated chunk lists (2-8 chunks) of chat messages with every field generated incl. absent/zero (role, name, tool call id, content, multi content, tool-call fragments with nil/0..2 index and partial id/type/name/arguments/extra, response meta with each sub-field nil or set, extras with string/int/float/bool/nil/typed-nil/nested-map/slice values), nil messages, message lists (sparse, equal and unequal lengths), strings, map[string]any, a struct with and one without registered concat function, ints; every split point. Checked through schema.ConcatMessages, schema.ConcatMessageStream and internal.ConcatItems: never a panic; two evaluations on equal inputs agree and leave the inputs untouched; concat(concat(prefix)::rest) equals concat(all) or both fail; on success Content and per-index Arguments are the in-order joins, un-indexed tool calls keep arrival order before indexed ones sorted by index.",
+    level_text="Generated chunk lists (2-8 chunks) of chat messages with every field generated incl. absent/zero (role, name, tool call id, content, multi content, tool-call fragments with nil/0..2 index and partial id/type/name/arguments/extra, response meta with each sub-field nil or set, extras with string/int/float/bool/nil/typed-nil/nested-map/slice values), nil messages, message lists (sparse, equal and unequal lengths), strings, map[string]any, a struct with and one without registered concat function, ints; every split point. Checked through schema.ConcatMessages, schema.ConcatMessageStream and internal.ConcatItems: never a panic; two evaluations on equal inputs agree and leave the inputs untouched; concat(concat(prefix)::rest) equals concat(all) or both fail; on success Content and per-index Arguments are the in-order joins, un-indexed tool calls keep arrival order before indexed ones sorted by index. A stream part sends 1-1300 string or map chunks (lengths also drawn around powers of two) through the framework's own stream concatenation (Invoke over a stream-only node, Collect into an invoke-only node) and compares with the reference concatenation.",
     level_note="Pure functions: no schedule involved. Empty chunk lists are not generated (the stream drain handles them before concatenation).",
-    rule="rapid draws a chunk kind, 2-8 chunks and a split point (70% of message lists keep role/name/ids consistent so that concatenation succeeds); non-trivial = >= 3 chunks, split point strictly inside (prefix >= 2 chunks) and, for messages, tool-call fragments on >= 2 indices or a nested extra map; distinct = FNV-1a of case JSON",
+    rule="rapid draws a chunk kind, 2-8 chunks and a split point (70% of message lists keep role/name/ids consistent so that concatenation succeeds); non-trivial = >= 3 chunks, split point strictly inside (prefix >= 2 chunks) and, for messages, tool-call fragments on >= 2 indices or a nested extra map; distinct = FNV-1a of case JSON ; stream part: non-trivial = >= 3 chunks",
     assumptions=["reflect.DeepEqual on the resulting messages is the equality meant by 'same result'"],
     parts=[rapid_part("rapid", "schema", "TestC14", 30000, 600000, replay_test="TestC14Replay"),
            fuzz_part("fuzz", "schema", "FuzzC14", 90),
@@ -145,7 +145,7 @@ CHECKS["C14"] = dict(
 
 CHECKS["C20"] = dict(
     technique="property-based testing (rapid) over Add*/Append*/Compile call sequences for Graph, Chain and Workflow builders; oracle = no panic + reference well-formedness predicate (one direction) + sticky error + identical outcome over 5 replays + immutability/unaffected runnable after Compile",
-    level_text="Generated call sequences (3-25 calls) over the three builders with keys from a pool containing reserved, duplicate and unknown keys, every violation kind of the statement at any position (reserved/unknown/duplicate keys, duplicate edges, END as source / START as target, missing entry or exit, single-target branches, state handler without state, node-key option outside chains, parallel/branch misuse in chains, trigger-mode and step-limit options in the wrong mode, cycles in all-predecessor mode), further Add*/Compile calls after a successful Compile, the whole sequence replayed 5 times on fresh builders. No call may panic; a sequence containing a listed violation must have produced an error by the end of Compile; after the first failing Add* everything fails; the index of the first failing call and Compile's success are identical in all replays; after a successful Compile every Add* on a Graph fails and the first runnable answers three sample inputs exactly as before, also after a second Compile. State handlers without state are generated in all four forms (pre, post, stream pre, stream post) and pre+post together.",
+    level_text="Generated call sequences (3-25 calls) over the three builders with keys from a pool containing reserved, duplicate and unknown keys, every violation kind of the statement at any position (reserved/unknown/duplicate keys, duplicate edges, END as source / START as target, missing entry or exit, single-target branches, state handler without state, node-key option outside chains, parallel/branch misuse in chains, trigger-mode and step-limit options in the wrong mode, cycles in all-predecessor mode), further Add*/Compile calls after a successful Compile, the whole sequence replayed 5 times on fresh builders. No call may panic; a sequence containing a listed violation must have produced an error by the end of Compile; after the first failing Add* everything fails; the index of the first failing call and Compile's success are identical in all replays; after a successful Compile every Add* on a Graph fails and the first runnable answers three sample inputs exactly as before, also after a second Compile. State handlers without state are generated in all four forms (pre, post, stream pre, stream post) and pre+post together. Compile options include WithNodeTriggerMode(AnyPredecessor), which a Chain or Workflow must reject.",
     level_note="The well-formedness reference is used in one direction only (violation => error); nothing is asserted about sequences it considers fine. Type inference of pass-through nodes is C07's business and not asserted here beyond determinism.",
     rule="rapid draws a builder kind, optional state and a call sequence; non-trivial = >= 6 calls and either the sequence compiled or its first failing call is not among the first two; the evidence histogram lists the violation kinds hit; distinct = FNV-1a of case JSON",
     assumptions=["all lambdas are string->string (map->string after a parallel) so that type mismatches do not mask construction errors"],
@@ -163,7 +163,7 @@ CHECKS["C07"] = dict(
 
 CHECKS["C15"] = dict(
     technique="property-based testing (rapid) of Workflow field mappings against an independent reflect-based path get/set reference; overlap predicate with permuted declaration orders; Invoke vs Stream differential",
-    level_text="Generated mapping sets (1-5 mappings, paths of depth <= 3 from tables over structs, pointers, maps, map-of-struct, map-of-pointer and any-holes; whole->field, field->whole, field->field) from two predecessors into one successor, declared in a generated order, reversed and rotated, in one AddInput call per predecessor or one call per mapping; source values with interface positions holding every dynamic type incl. nil and typed nil. Overlapping target sets must be rejected by Compile in every order tried. For accepted overlap-free sets the successor's actual input is compared with a reference built by an independent get/set over reflect values (everything else zero, nil==empty), on two Invokes and one Stream, and the sources must be unchanged; where the reference cannot evaluate a mapping on the given input (missing key, nil on the way, non-assignable dynamic type) the run must return an ordinary error. Any panic out of Compile/Invoke/Stream is a violation.",
+    level_text="Generated mapping sets (1-5 mappings, paths of depth <= 3 from tables over structs, pointers, maps, map-of-struct, map-of-pointer and any-holes; whole->field, field->whole, field->field) from two predecessors into one successor, declared in a generated order, reversed and rotated, in one AddInput call per predecessor or one call per mapping; source values with interface positions holding every dynamic type incl. nil and typed nil. Overlapping target sets must be rejected by Compile in every order tried. For accepted overlap-free sets the successor's actual input is compared with a reference built by an independent get/set over reflect values (everything else zero, nil==empty), on two Invokes and one Stream, and the sources must be unchanged; where the reference cannot evaluate a mapping on the given input (missing key, nil on the way, non-assignable dynamic type) the run must return an ordinary error. Any panic out of Compile/Invoke/Stream is a violation. A quarter of the cases add the successor with WithOutputKey.",
     level_note="Acceptance itself is asserted only for overlaps (the direction the statement fixes); sets the framework rejects are counted, not judged. Stream mode delivers each source as a single chunk.",
     rule="rapid draws source/target type, a source value and 1-5 mappings from the path tables (including unknown/unexported fields and mismatching types); non-trivial = >= 2 mappings and a path of depth >= 2 in an accepted set, or an overlapping set with >= 2 mappings; distinct = FNV-1a of case JSON",
     assumptions=["nil and empty containers are considered equal when comparing the successor's input with the reference"],
@@ -172,7 +172,7 @@ CHECKS["C15"] = dict(
 
 CHECKS["C16"] = dict(
     technique="property-based testing (rapid) against a reference option router: generated nested graphs with mixed component types x generated call options (undesignated, designated to nodes / paths, misuse kinds, designated callbacks) x sequential and concurrent calls",
-    level_text="Generated nested graphs (Graph and Workflow levels, depth <= 3) with lambdas of two option types, lambdas without options and a document-transformer component; calls carrying 0-5 options each: undesignated component options of each type, options designated to a node, to a nested path or to a graph node, to an unknown node, to a path below a non-graph node, with a wrong option type, and designated callback handlers. Every instrumented node records the option values it received (tagged with the call id). Oracle: a reference router written from the statement gives, per node, the ordered list of values it must receive, and the calls that must fail; equality is required for every node, no value of another call may appear (2-3 calls per case, concurrently in a third of the cases), a designated callback must fire at its node and nowhere outside it. A second part addresses tools nodes: 1-4 WithToolsNodeOption(WithToolOption(...)) groups per call, undesignated or designated (key, nested path, sub-graph node, unknown node), Invoke and Stream; the tool must receive the values of every group addressed to its node, in order. A quarter of the cases interrupt a nested graph before one of its nodes and let the RESUMING call carry the options: what runs in the resumed call must receive exactly what the router says, and a misuse met by a graph level that runs again must fail the call.",
+    level_text="Generated nested graphs (Graph and Workflow levels, depth <= 3) with lambdas of two option types, lambdas without options and a document-transformer component; calls carrying 0-5 options each: undesignated component options of each type, options designated to a node, to a nested path or to a graph node, to an unknown node, to a path below a non-graph node, with a wrong option type, and designated callback handlers. Every instrumented node records the option values it received (tagged with the call id). Oracle: a reference router written from the statement gives, per node, the ordered list of values it must receive, and the calls that must fail; equality is required for every node, no value of another call may appear (2-3 calls per case, concurrently in a third of the cases), a designated callback must fire at its node and nowhere outside it. A second part addresses tools nodes: 1-4 WithToolsNodeOption(WithToolOption(...)) groups per call, undesignated or designated (key, nested path, sub-graph node, unknown node), Invoke and Stream; the tool must receive the values of every group addressed to its node, in order. A quarter of the cases interrupt a nested graph before one of its nodes and let the RESUMING call carry the options: what runs in the resumed call must receive exactly what the router says, and a misuse met by a graph level that runs again must fail the call. A sixth of the graph levels consist of option-less lambdas only.",
     level_note="Designating a graph node is modelled as addressing the nodes of the option's type inside that graph. Tools-node and chat-model options are not generated (their routing goes through the same extractOption code path; their delivery to tools is C17's business).",
     rule="rapid draws the node tree and the calls; non-trivial = nesting depth >= 1, >= 3 component kinds, at least one option designated to a path of length >= 2 and one undesignated option; distinct = FNV-1a of case JSON",
     assumptions=["all values of one WithLambdaOption call share a type (documented precondition)"],
@@ -182,7 +182,7 @@ CHECKS["C16"] = dict(
 
 CHECKS["C10"] = dict(
     technique="property-based testing (rapid) with recording callback handlers: generated graphs x handler supply plans x gated parallel nodes released in generated orders x handler stream behaviours; oracle = exact-once pairing per (handler, unit) derived from the reference model + payload equality + designated-handler isolation; run under the race detector",
-    level_text="Generated graphs (pregel / all-predecessor / workflow, nested) whose top-level lambdas are gated so that parallel nodes overlap and finish in a generated order; handlers are supplied globally (0-2), per call in 0-4 WithCallbacks options with 1-3 handlers each (the slice capacities this produces are the point), and designated to lambda nodes at any nesting level; full handlers and HandlerBuilder handlers for value timings only; Invoke and Stream; every handler reads its stream copy fully, reads a prefix and closes, or closes at once. Units (the run, graph nodes, lambda executions with input and output) come from the reference model. For every full handler that applies to a unit: exactly one start-type and one end-type event carrying the unit's name, value payloads (and fully read stream payloads) equal the unit's input/output; designated handlers are invoked for their node only; the run's result equals the reference whatever handlers do with their copies. Built with -race. Tool calls are units too: a second part runs a graph around a ToolsNode and requires that a handler passed with the call and a handler registered globally each see every tool call exactly once at its start and once at its end. A components part covers units that fire their own callbacks (ChatTemplate, lambdas declaring callbacks enabled) and handlers with any subset of start / end / error functions (TimingChecker): each function a handler has runs exactly once for the matching outcome of every executed unit, and a failing unit's error is reported as such, not as a recovered panic.",
+    level_text="Generated graphs (pregel / all-predecessor / workflow, nested) whose top-level lambdas are gated so that parallel nodes overlap and finish in a generated order; handlers are supplied globally (0-2), per call in 0-4 WithCallbacks options with 1-3 handlers each (the slice capacities this produces are the point), and designated to lambda nodes at any nesting level; full handlers and HandlerBuilder handlers for value timings only; Invoke and Stream; every handler reads its stream copy fully, reads a prefix and closes, or closes at once. Units (the run, graph nodes, lambda executions with input and output) come from the reference model. For every full handler that applies to a unit: exactly one start-type and one end-type event carrying the unit's name, value payloads (and fully read stream payloads) equal the unit's input/output; designated handlers are invoked for their node only; the run's result equals the reference whatever handlers do with their copies. Built with -race. Tool calls are units too: a second part runs a graph around a ToolsNode and requires that a handler passed with the call and a handler registered globally each see every tool call exactly once at its start and once at its end. A components part covers units that fire their own callbacks (ChatTemplate, lambdas declaring callbacks enabled) and handlers with any subset of start / end / error functions (TimingChecker): each function a handler has runs exactly once for the matching outcome of every executed unit, and a failing unit's error is reported as such, not as a recovered panic. A third of the cases keep all handlers of a call in one array and pass sub-slices of it to the options, so that every slice has spare capacity that belongs to its neighbours.",
     level_note="Only clean runs are judged (failing or timing-dependent runs are counted and skipped). Tool-call units are exercised in C17. Parallel overlap is produced by gates and observed (label gated-bodies-overlapped); the interleaving inside the framework is the Go scheduler's.",
     rule="rapid draws a GraphSpec, paradigm, handler supply plan and release order; non-trivial = (>= 2 designated handlers on top-level nodes, >= 2 gated bodies observed waiting at the same time, per-call handlers in >= 2 options) or (Stream paradigm with a full handler closing its copy early and >= 2 executions); distinct = FNV-1a of case JSON ; components part: non-trivial = some handler lacks one of the three functions and the failing unit fires its own callbacks",
     assumptions=GRAPH_ASSUME,
@@ -204,7 +204,7 @@ CHECKS["C11"] = dict(
 
 CHECKS["C17"] = dict(
     technique="property-based testing (rapid) of the tools node with gated tools released in a generated completion order; oracle = reference answer list by call index, stream joined position-wise, error contract via errors.Is/As, per-call callback units; under the race detector",
-    level_text="Generated tool sets (3-5 tools: invokable-only, streamable-only, both; 1-4 chunks) and call lists (1-6 calls, repeated tools, unknown names) with every tool call blocked at a gate keyed by its tool call id and released in a generated order after all calls are observed waiting, so that completion order is owned by the harness; failing tools (error at call, error item mid-stream, panic), unknown-tool handler present or absent; standalone Invoke/Stream and inside a graph under Invoke/Stream/Collect/Transform. Oracle: N calls give N tool messages, the i-th with the i-th call's id and the named tool's output on that call's arguments (or the unknown-tool handler's answer); the streamed form joined position-wise equals the same list; a failing tool fails the call and errors.Is/As recover an error of a failing call; a panicking tool inside a graph becomes an error; unknown name without handler is an error; a recording handler sees exactly one start and one end per tool call carrying the tool's name. Built with -race. A third of the tools honour their context (they return ctx.Err() if a cancellation arrives): nobody cancels the caller's context, so the reported failure must still be the failing tool's own error.",
+    level_text="Generated tool sets (3-5 tools: invokable-only, streamable-only, both; 1-4 chunks) and call lists (1-6 calls, repeated tools, unknown names) with every tool call blocked at a gate keyed by its tool call id and released in a generated order after all calls are observed waiting, so that completion order is owned by the harness; failing tools (error at call, error item mid-stream, panic), unknown-tool handler present or absent; standalone Invoke/Stream and inside a graph under Invoke/Stream/Collect/Transform. Oracle: N calls give N tool messages, the i-th with the i-th call's id and the named tool's output on that call's arguments (or the unknown-tool handler's answer); the streamed form joined position-wise equals the same list; a failing tool fails the call and errors.Is/As recover an error of a failing call; a panicking tool inside a graph becomes an error; unknown name without handler is an error; a recording handler sees exactly one start and one end per tool call carrying the tool's name. Built with -race. A third of the tools honour their context (they return ctx.Err() if a cancellation arrives): nobody cancels the caller's context, so the reported failure must still be the failing tool's own error. A third of the failures additionally wrap io.EOF.",
     level_note="A panic of the first (inline) tool call in a standalone ToolsNode.Invoke escapes to the caller by design of the statement (only the enclosing run is promised to fail); it is counted, not judged.",
     rule="rapid draws tools, calls, handler presence, embedding, paradigm and completion order; non-trivial = >= 3 calls including a repeated tool, completion order different from call order, >= 2 tool kinds; distinct = FNV-1a of case JSON",
     assumptions=["tool outputs are a deterministic function of (tool name, arguments)"],
@@ -213,7 +213,7 @@ CHECKS["C17"] = dict(
 
 CHECKS["C18"] = dict(
     technique="property-based testing (rapid) of the ReAct agent against a reference ReAct loop: generated model scripts, chunkings, tool sets, return-directly sets, step limits; Generate vs Stream differential",
-    level_text="Generated model scripts (0-4 assistant turns with 0-3 tool calls each and content), streamed in a generated chunking (tool calls in the first non-empty chunk for the default detector; also after content with a whole-stream detector), invokable or streamable tools, return-directly subsets, MaxStep 0 (default) or 1-8, optional MessageModifier. A scripted model records a snapshot of every input it is given; tools record (tool, arguments, call id). Oracle: a reference loop written from the statement: number of model calls, the exact history given to every model call, the multiset of tool invocations, the final answer (first assistant message without tool calls, or the result of the first return-directly call), or the step-limit error when the loop needs more supersteps than allowed; checked for Generate and for the concatenated Stream.",
+    level_text="Generated model scripts (0-4 assistant turns with 0-3 tool calls each and content), streamed in a generated chunking (tool calls in the first non-empty chunk for the default detector; also after content with a whole-stream detector), invokable or streamable tools, return-directly subsets, MaxStep 0 (default) or 1-8, optional MessageModifier. A scripted model records a snapshot of every input it is given; tools record (tool, arguments, call id). Oracle: a reference loop written from the statement: number of model calls, the exact history given to every model call, the multiset of tool invocations, the final answer (first assistant message without tool calls, or the result of the first return-directly call), or the step-limit error when the loop needs more supersteps than allowed; checked for Generate and for the concatenated Stream. Half of the configured MessageModifiers build their result inside the slice they are given (append and shift) instead of a new one.",
     level_note="The default streaming tool-call detector's documented precondition is respected by construction. Unknown tool names are C17's business.",
     rule="rapid draws script, chunkings, tools, return-directly set, MaxStep, modifier; non-trivial = (>= 2 model turns and a turn with >= 2 tool calls) or (a return-directly hit after a normal turn) or the step limit reached; distinct = FNV-1a of case JSON",
     assumptions=["the model mock answers the k-th call of a run with the k-th script entry"],
@@ -235,9 +235,9 @@ CHECKS["C09"] = dict(
 
 CHECKS["C19"] = dict(
     technique="property-based testing (rapid): generated graphs x real Pipe producers x early-close points x handler behaviours; oracle = goroutine-dump fixed point (no goroutine created by the run stays blocked) + producer-side finished/closed observation",
-    level_text="Generated graphs of every kind (nesting, fan-out/fan-in, stream branches that read one chunk and close, key mappings), with every node output stream and the caller's input stream produced by a real goroutine writing to a Pipe of capacity 0-2, lazy transformers, callback handlers that close their stream copies at once / after one chunk / after reading all (inline or in a goroutine); the caller reads 0,1,2 chunks and closes or reads to EOF. In scope = the reference model says the run reaches END with no produced value lacking a consumer. Oracle: after the caller's close every producer finished or saw closed, and every goroutine created during the case is gone; a violation is reported only at a fixed point (three consecutive dumps, same goroutines, all blocked on channel/select/sync waits), with the stacks; budget exhaustion without a fixed point is inconclusive and only counted.",
+    level_text="Generated graphs of every kind (nesting, fan-out/fan-in, stream branches that read one chunk and close, key mappings), with every node output stream and the caller's input stream produced by a real goroutine writing to a Pipe of capacity 0-2, lazy transformers, callback handlers that close their stream copies at once / after one chunk / after reading all (inline or in a goroutine); the caller reads 0,1,2 chunks and closes or reads to EOF. In scope = the reference model says the run reaches END with no produced value lacking a consumer. Oracle: after the caller's close every producer finished or saw closed, and every goroutine created during the case is gone; a violation is reported only at a fixed point (three consecutive dumps, same goroutines, all blocked on channel/select/sync waits), with the stacks; budget exhaustion without a fixed point is inconclusive and only counted. A ReAct part runs streamed agent calls whose tools stream through real pipes fed by producer goroutines (return-directly tools mostly configured and called); the caller reads a generated number of chunks and closes; every producer of the run must have returned shortly afterwards.",
     level_note="Which interleavings occur is left to the Go scheduler; a leak that needs a specific interleaving is found only if that interleaving happens.",
-    rule="rapid draws the graph, input, paradigm, pipe capacity, laziness, read count and handler mode; non-trivial = in scope, >= 2 producers, an early close (caller, handler or prefix branch) and a graph with a branch, fan-in, nesting or fan-out; distinct = FNV-1a of case JSON",
+    rule="rapid draws the graph, input, paradigm, pipe capacity, laziness, read count and handler mode; non-trivial = in scope, >= 2 producers, an early close (caller, handler or prefix branch) and a graph with a branch, fan-in, nesting or fan-out; distinct = FNV-1a of case JSON ; react part: non-trivial = a return-directly tool was called and the caller closed while its producer still had pieces to send",
     assumptions=GRAPH_ASSUME,
     parts=[rapid_part("leaks", "compose", "TestC19", 400, 48000, qshards=8, replay_test="TestC19Replay", replay_reps=3),
            rapid_part("react", "flow/agent/react", "TestC19React", 3000, 300000, replay_test="TestC19ReactReplay")],
@@ -245,7 +245,7 @@ CHECKS["C19"] = dict(
 
 CHECKS["C03"] = dict(
     technique="property-based testing (rapid) over completion schedules: generated release orders of gated node bodies and generated yields at add-only hook points (build tag verif) of the task manager; oracles = reference model + metamorphic (any completion order gives the identity-order result) + history invariants over hook events",
-    level_text="(a) white box: the task manager is driven directly (needAll and eager) with 1-3 batches of 1-8 tasks (gated, failing, panicking, with pre/post-processors), the gates opened in a generated order and 0-3 yields injected at each of nine hook points; history invariants: each task collected exactly once and only after its body returned, with its own output/error; waitAll returns exactly the outstanding set; num/list/channel drained at the end; per task submit -> returned -> pushed -> handoff -> received each once; synchronous-first-task rule; a stuck driver is detected by a no-progress watchdog. (b) black box: generated graphs of all kinds with parallel gated nodes are run under the identity release order and under generated permutations (with hook yields); output and executed (node,input) multiset equal the reference model and each other; the run returns only after every body feeding END returned; tasks of nodes feeding END are collected exactly once (hook events). Built with -race. A directed generator adds joins reached by plain edges and through branches of producers that finish in a generated order.",
+    level_text="(a) white box: the task manager is driven directly (needAll and eager) with 1-3 batches of 1-8 tasks (gated, failing, panicking, with pre/post-processors), the gates opened in a generated order and 0-3 yields injected at each of nine hook points; history invariants: each task collected exactly once and only after its body returned, with its own output/error; waitAll returns exactly the outstanding set; num/list/channel drained at the end; per task submit -> returned -> pushed -> handoff -> received each once; synchronous-first-task rule; a stuck driver is detected by a no-progress watchdog. (b) black box: generated graphs of all kinds with parallel gated nodes are run under the identity release order and under generated permutations (with hook yields); output and executed (node,input) multiset equal the reference model and each other; the run returns only after every body feeding END returned; tasks of nodes feeding END are collected exactly once (hook events). Built with -race. A directed generator adds joins reached by plain edges and through branches of producers that finish in a generated order. A third of the graphs are stateful (handlers and ProcessState share one lock); a node may fail by panicking inside its ProcessState handler, and a directed scenario lets 2-5 producers of one step work on the state in a generated finishing order: the run must end with that failure, never hang.",
     level_note="The Go scheduler is not owned: interleavings inside the few instructions between hook points are sampled, not enumerated; the yields make the narrow windows likely, not certain.",
     rule="rapid draws batches/task kinds/release picks/yield table (white box) or graph, input, paradigm, release picks, yield table (black box); non-trivial = overflow list held >= 2 finished tasks or >= 3 gated bodies outstanding at once (white box) / >= 2 bodies overlapped and the release order differs from identity (black box); distinct = FNV-1a of case JSON",
     assumptions=GRAPH_ASSUME + ["hook points compiled in with -tags verif (add-only, MANIFEST.hooks)"],
